@@ -86,6 +86,9 @@ def gen_cases(tier, seed):
         if ops and any('i' in o for o in ops):
             yield ('E', ops, out, 'four', 'split')
     yield ('S',)
+    for sz in (3, 4):
+        for sem in SEMS:
+            yield ('chain', sz, sem)
 
 
 def describe(case):
@@ -134,6 +137,12 @@ def patterns_for(shape, which):
                 k = [PhysicalAxis(s) for s in shape[1:]]
                 return PatternedTensor(base(off)[1:].clone(), (k0,) + tuple(k), (SumAxis(1, k0, 0),) + tuple(k), 0.)
             out.append(('offset', offset))
+
+            def offset5(off):
+                k0 = PhysicalAxis(shape[0] - 1)
+                k = [PhysicalAxis(s) for s in shape[1:]]
+                return PatternedTensor(base(off)[1:].clone(), (k0,) + tuple(k), (SumAxis(1, k0, 0),) + tuple(k), 5.)
+            out.append(('offset-default5', offset5))
         if rank == 2 and shape[0] == shape[1] and shape[0] > 1:
             def diag(off):
                 k = PhysicalAxis(shape[0])
@@ -158,7 +167,7 @@ def patterns_for(shape, which):
     if which == 'all':
         return out
     if which == 'shared3':
-        return [x for x in out if x[0] in ('dense', 'offset', 'onehot0', 'diag', 'permuted')]
+        return [x for x in out if x[0] in ('dense', 'offset', 'offset-default5', 'onehot0', 'diag', 'permuted')]
     if which == 'split':
         return [x for x in out if x[0] in ('dense', 'split', 'split-shared', 'stride0-all')]
     if which == 'min':
@@ -181,6 +190,61 @@ def restride(ph, f, grad):
     if grad and flat.dtype.is_floating_point:
         flat.requires_grad_(True)
     return torch.as_strided(flat, size, stride, off)
+
+
+def chains(case, r):
+    """Two-level histories: the result of one einsum (whose axes are the - partly renamed - axes of its inputs) is
+    used, once or twice, as an operand of a second einsum together with the original operands."""
+    import torch
+    from fggs.indices import einsum
+    from mc import ir as IR
+    _, n, sem = case
+    sizes = {c: n for c in 'ijk'}
+    S = IR.semiring(sem, 'float64')
+    vecs = [x for x in patterns_for((n,), 'all') if x[0] in ('dense', 'onehot', 'offset', 'offset-default5', 'stride0-all', 'split')]
+    mats = [x for x in patterns_for((n, n), 'all') if x[0] in ('dense', 'diag', 'permuted', 'offset')]
+    firsts = [((('i',), ('j',)), ('i', 'j'), 'vv'), ((('i',), ('i',)), ('i',), 'vv'), ((('i', 'j'), ('j',)), ('i',), 'mv'), ((('i', 'j'), ('j', 'k')), ('i', 'k'), 'mm'),
+              ((('i', 'j'), ('i', 'j')), ('i', 'j'), 'mm')]
+    for (ops1, out1, kind) in firsts:
+        cands = itertools.product(mats if kind[0] == 'm' else vecs, mats if kind[1] == 'm' else vecs)
+        for (na, ba), (nb, bb) in cands:
+            for same in (False, True):
+                if same and (na != nb or kind[0] != kind[1]):
+                    continue
+                a = ba(0)
+                b = a if same else bb(3)
+                A, B = a.to_dense(), b.to_dense()
+                O = ref([A, B], ops1, out1, sizes, 'max' if sem == 'viterbi' else 'sum')[0]
+                key0 = ('chain', n, sem, ops1, out1, na, nb, same)
+                try:
+                    ta, tb = to_sem(a, sem, False), (None if same else to_sem(b, sem, False))
+                    tb = ta if same else tb
+                    o = einsum([ta, tb], [tuple(x) for x in ops1], tuple(out1), S)
+                    seconds = []
+                    if len(out1) == 2:
+                        seconds = [((('i', 'j'), ('i', 'j')), ('i', 'j'), [o, o], [O, O]), ((('i', 'j'), ('j', 'k')), ('i', 'k'), [o, o], [O, O]),
+                                   ((('i', 'j'), ('j', 'i')), ('i',), [o, o], [O, O]), ((('i', 'j'),), ('j', 'i'), [o], [O])]
+                        if kind == 'vv':
+                            seconds.append(((('i', 'j'), ('j',)), ('i',), [o, ta], [O, A]))
+                        else:
+                            seconds.append(((('i', 'j'), ('j', 'k')), ('i', 'k'), [o, ta], [O, A]))
+                    else:
+                        seconds = [((('i',), ('i',)), ('i',), [o, o], [O, O]), ((('i',), ('j',)), ('i', 'j'), [o, o], [O, O]), ((('i',), ('i',)), (), [o, ta if kind[0] == 'v' else o], [O, A if kind[0] == 'v' else O])]
+                    for ops2, out2, tens, dens in seconds:
+                        key = key0 + (ops2, out2, len(tens))
+                        res = einsum(tens, [tuple(x) for x in ops2], tuple(out2), S).to_dense()
+                        want = ref(dens, ops2, out2, sizes, 'max' if sem == 'viterbi' else 'sum')[0]
+                        exp = want if sem == 'real' else (want > 0 if sem == 'bool' else want.log())
+                        if not agree(res, exp):
+                            r.bad('wrong-einsum', 'indices.einsum', sem, 'chained: first %s(%s,%s%s) -> %s, then %s -> %s: got %r, expected %r' % (ops1, na, nb, ' same object' if same else '', out1, ops2, out2, res.tolist(), exp.tolist()), case, key)
+                        else:
+                            r.ok(key, outcome=(sem, 'chain'), nontrivial=bool((want != 0).any()))
+                except ptinv.RepInvariantError as e:
+                    r.bad('representation-invariant', 'indices.einsum', sem, 'chained %r: %s' % (key0, e), case, key0)
+                except Warning as w:
+                    r.excl['chained einsum leaves the well-typed scope (warning)'] += 1
+                except Exception as e:
+                    r.exc(e, sem, case, key0)
 
 
 def to_sem(t, sem, grad):
@@ -234,6 +298,8 @@ def run_case(case):
     try:
         if case[0] == 'E':
             equation_case(case, r)
+        elif case[0] == 'chain':
+            chains(case, r)
         elif case[0] == 'E1':
             _, ops, out, sz, names, dev = case
             one_combo(ops, out, sz, names, dev, r)
